@@ -36,7 +36,7 @@ def t_filter_prefix(ex):
 
 
 # ------------------------------------------------------------------ bounded stand-in ----
-ARCHES = ("alpha", "amd64", "hppa", "x86", "x86-macos")  # the repository's arch list names a prefix arch too: it must still never be suggested
+ARCHES = ("alpha", "amd64", "hppa", "x86", "x86-macos", "m68k-mint", "s390x-linux")  # the repository's arch list names a prefix arch too: it must still never be suggested
 
 
 class Repo:
@@ -54,7 +54,8 @@ def mkrepo(rnd):
     from pkgcore.repository.util import SimpleTree
     from pkgcore.test.misc import FakePkg
     spec = {}
-    pool = ["amd64", "~amd64", "-amd64", "alpha", "~alpha", "-alpha", "hppa", "~hppa", "-hppa", "x86", "~x86", "-x86", "ia64", "~ia64", "x86-macos", "~x86-macos", "~amd64-linux", "-*"]
+    pool = ["amd64", "~amd64", "-amd64", "alpha", "~alpha", "-alpha", "hppa", "~hppa", "-hppa", "x86", "~x86", "-x86", "ia64", "~ia64", "x86-macos", "~x86-macos", "~amd64-linux", "-*",
+            "m68k-mint", "~m68k-mint", "s390x-linux", "~ppc64le-linux", "sparc64-solaris"]   # prefix arches of every shape (digits inside the arch part)
     for p in ("a", "b", "c"):
         spec[p] = {v: tuple(sorted(set(rnd.sample(pool, rnd.choice((0, 1, 2, 3, 4)))))) for v in rnd.sample(("1", "2", "3"), rnd.choice((1, 2, 3)))}
     holder = {}
